@@ -630,16 +630,49 @@ func (r *c09Run) deliver(e c09Ev) {
 }
 
 // step delivers one stimulus and drains; returns the certificates emitted, or a panic text.
+// Every delivery runs under a watchdog: an implementation that blocks (in CollectVote, in the event dispatch, in a
+// verification goroutine) must not hang the check. When the watchdog fires the world is abandoned (its goroutine is
+// left behind), the failure is recorded with the concrete history, and after c09MaxHangs firings the remaining cases
+// of the harness are skipped so that the whole check still ends quickly.
+const (
+	c09Hung     = "step never returns"
+	c09MaxHangs = 3
+)
+
+var c09Hangs int
+
+func c09StepLimit() time.Duration {
+	if os.Getenv("VERIF_TIER") == "thorough" {
+		return 30 * time.Second
+	}
+	return 10 * time.Second
+}
+
 func (r *c09Run) step(e c09Ev) (out []c09QC, panicked string) {
-	defer func() {
-		if p := recover(); p != nil {
-			panicked = fmt.Sprint(p)
-		}
+	type res struct {
+		out []c09QC
+		p   string
+	}
+	ch := make(chan res, 1)
+	go func() {
+		var rs res
+		defer func() {
+			if p := recover(); p != nil {
+				rs.p = fmt.Sprint(p)
+			}
+			ch <- rs
+		}()
+		r.cur = nil
+		r.deliver(e)
+		r.drain()
+		rs.out = r.cur
 	}()
-	r.cur = nil
-	r.deliver(e)
-	r.drain()
-	return r.cur, ""
+	select {
+	case rs := <-ch:
+		return rs.out, rs.p
+	case <-time.After(c09StepLimit()):
+		return nil, c09Hung
+	}
 }
 
 // buckets reads the collector's table of pending verified votes without depending on how it is keyed: the
@@ -870,21 +903,38 @@ func (w *c09World) exactness(B *c09Block, store0, remote []*c09Block, evs []c09E
 // one synchronous case
 
 func (w *c09World) syncCase(s *verifStream, stream string, store0, remote []*c09Block, evs []c09Ev) {
+	if c09Hangs >= c09MaxHangs {
+		w.v.Count("skipped-after-watchdog")
+		return
+	}
 	r := w.newRun(true, store0, remote)
 	outs := make([][]c09QC, 0, len(evs))
 	panicked := ""
-	for _, e := range evs {
+	hungAt := -1
+	for i, e := range evs {
 		o, p := r.step(e)
+		if p == c09Hung {
+			// the stimulus never returned: it and everything after it produced no certificate
+			hungAt = i
+			for len(outs) < len(evs) {
+				outs = append(outs, nil)
+			}
+			break
+		}
 		if p != "" {
 			panicked = p
 			break
 		}
 		outs = append(outs, o)
 	}
-	bk, okState := r.buckets()
-	nd := r.delayed()
-	if nd < 0 {
-		okState, nd = false, 0
+	var bk []c09Bucket
+	okState, nd := false, 0
+	if hungAt < 0 { // never touch the private state of a blocked collector (its lock may be held)
+		bk, okState = r.buckets()
+		nd = r.delayed()
+		if nd < 0 {
+			okState, nd = false, 0
+		}
 	}
 	evT, evS := make([]string, len(evs)), make([]string, len(evs))
 	kinds := map[string]bool{}
@@ -935,7 +985,7 @@ func (w *c09World) syncCase(s *verifStream, stream string, store0, remote []*c09
 		return map[string]any{"stream": stream, "scheme": w.scheme, "n": w.n, "quorum": w.q, "verification": "sync",
 			"replica_ids": w.ids[:w.n], "created_with_members": w.startN,
 			"initial_blocks": c09Names(store0), "fetchable": c09Names(remote), "stimuli": evS,
-			"certificates_per_stimulus": outT, "final_verifiedVotes": c09BucketsTerm(bk), "delayed": nd, "panic": panicked}
+			"certificates_per_stimulus": outT, "final_verifiedVotes": c09BucketsTerm(bk), "delayed": nd, "panic": panicked, "blocked_at_stimulus": hungAt}
 	}
 	key := fmt.Sprintf("S|%s|%d|%s|%d|%s", w.scheme, w.n, w.idset, w.startN, c09BlocksTerm(store0), c09BlocksTerm(remote), strings.Join(evT, ";"))
 	w.v.Seen(key, nqc > 0 || len(kinds) > 2, meta())
@@ -951,6 +1001,11 @@ func (w *c09World) syncCase(s *verifStream, stream string, store0, remote []*c09
 	if panicked != "" {
 		w.v.Oracle(false, "votingmachine.collect:panic", "panic while handling a stimulus: "+panicked, meta())
 		return
+	}
+	if hungAt >= 0 {
+		c09Hangs++
+		w.v.Count("watchdog-fired")
+		w.v.Oracle(false, "votingmachine:step-never-returns", fmt.Sprintf("stimulus %d (%s) did not return within %s: the collector blocks; no certificate can come out of this or any later stimulus", hungAt, evS[hungAt], c09StepLimit()), meta())
 	}
 	for _, o := range outs {
 		for _, q := range o {
@@ -1002,9 +1057,18 @@ func c09Names(bs []*c09Block) []string {
 // the proposal as the last setup stimulus: with only B-naming and known-block votes in the burst the two are the
 // same up to the order of the critical sections). eager: the loop is ticked while the burst is still being queued.
 func (w *c09World) asyncCase(s *verifStream, store0, remote []*c09Block, setup []c09Ev, burst []*c09Vote, latePos int, eager bool) {
+	if c09Hangs >= c09MaxHangs {
+		w.v.Count("skipped-after-watchdog")
+		return
+	}
 	r := w.newRun(false, store0, remote)
 	for _, e := range setup {
-		r.step(e)
+		if _, p := r.step(e); p == c09Hung {
+			c09Hangs++
+			w.v.Count("watchdog-fired")
+			w.v.Oracle(false, "votingmachine:step-never-returns", "a setup stimulus of an asynchronous burst did not return: "+e.short(), map[string]any{"stream": "async", "stimulus": e.short()})
+			return
+		}
 	}
 	base := runtime.NumGoroutine()
 	r.cur = nil
@@ -1034,7 +1098,7 @@ func (w *c09World) asyncCase(s *verifStream, store0, remote []*c09Block, setup [
 		w.v.Count("async-high-tc-mid-burst")
 	}
 	quiet := 0
-	deadline := time.Now().Add(20 * time.Second)
+	deadline := time.Now().Add(c09StepLimit())
 	for quiet < 3 && time.Now().Before(deadline) {
 		r.drain()
 		if runtime.NumGoroutine() <= base {
@@ -1044,12 +1108,17 @@ func (w *c09World) asyncCase(s *verifStream, store0, remote []*c09Block, setup [
 		}
 		time.Sleep(200 * time.Microsecond)
 	}
+	hungAsync := quiet < 3 // verification goroutines that never finish
 	r.drain()
 	qcs := r.cur
-	bk, okState := r.buckets()
-	nd := r.delayed()
-	if nd < 0 {
-		okState, nd = false, 0
+	var bk []c09Bucket
+	okState, nd := false, 0
+	if !hungAsync { // never touch the private state of a blocked collector
+		bk, okState = r.buckets()
+		nd = r.delayed()
+		if nd < 0 {
+			okState, nd = false, 0
+		}
 	}
 
 	// witness: for every certificate in emission order its signers in slice order, then the residual
@@ -1140,6 +1209,11 @@ func (w *c09World) asyncCase(s *verifStream, store0, remote []*c09Block, setup [
 		"final_verifiedVotes": c09BucketsTerm(bk), "delayed": nd, "explained": explain,
 		"replica_ids": w.ids[:w.n], "block_proposal_queued_before_burst_index": latePos, "loop_ticked_while_queueing": eager}
 	w.v.Seen("A|"+w.scheme+fmt.Sprint(w.n)+"|"+strings.Join(setT, ";")+"|"+burstT, true, meta)
+	if hungAsync {
+		c09Hangs++
+		w.v.Count("watchdog-fired")
+		w.v.Oracle(false, "votingmachine:step-never-returns", fmt.Sprintf("asynchronous verification: %s after the burst was handed in, verification goroutines have still not returned", c09StepLimit()), meta)
+	}
 	w.v.Count(fmt.Sprintf("async:%s:n=%d", w.scheme, w.n))
 	w.v.Count("ids:" + w.idset)
 	if latePos >= 0 {
@@ -1538,6 +1612,50 @@ func TestVerifC09(t *testing.T) {
 						w.syncCase(sPerm, "availability", noB, []*c09Block{w.blocks["R"]}, evs)
 					}
 				}
+			}
+		}
+	}
+
+	// (a8) many invalid votes first: 4 to 8 votes that fail verification (garbage, relabelled, unknown signer, signature
+	// over another block; naming B and naming C), then a quorum of valid votes for B and a quorum for C. Whatever
+	// the invalid ones cost, the valid ones must still be counted (sync here, async bursts below).
+	manyInvalid := func(w *c09World, k int) (invalid, valid []*c09Vote) {
+		B, C := w.blocks["B"], w.blocks["C"]
+		n := w.n
+		kinds := []*c09Vote{
+			w.vote("garbage", B, w.garbage(w.ids[min(2, n)-1])),
+			w.vote("relabelled", B, w.genuine(n, B).relabel(w.ids[0])),
+			w.vote("garbage-other-block", C, w.garbage(w.ids[min(3, n)-1])),
+			w.vote("non-member", B, w.genuine(n+1, B)),
+			w.vote("signature-over-other-block", C, w.genuine(min(3, n), B)),
+			w.vote("signature-over-other-block", B, w.genuine(min(3, n), C)),
+			w.vote("non-member-relabelled", C, w.genuine(n+1, C).relabel(w.ids[n-1])),
+			w.vote("garbage", B, w.garbage(w.ids[0])),
+		}
+		invalid = kinds[:k]
+		for i := 1; i <= w.q; i++ {
+			valid = append(valid, w.honest(i, B))
+		}
+		for i := n; i > n-w.q; i-- {
+			valid = append(valid, w.honest(i, C))
+		}
+		return invalid, valid
+	}
+	for _, scheme := range []string{crypto.NameECDSA, crypto.NameEDDSA} {
+		for _, n := range []int{4, 7} {
+			w := world(scheme, n)
+			store := []*c09Block{w.blocks["G"], w.blocks["B"], w.blocks["C"], w.blocks["L3"]}
+			for _, k := range []int{4, 5, 6, 8} {
+				invalid, valid := manyInvalid(w, k)
+				evs := []c09Ev{Hi(w.blocks["L3"])}
+				for _, x := range invalid {
+					evs = append(evs, V(x))
+				}
+				for _, x := range valid {
+					evs = append(evs, V(x))
+				}
+				w.syncCase(sPerm, "many-invalid-first", store, []*c09Block{w.blocks["R"]}, evs)
+				w.asyncCase(sAsync, store, []*c09Block{w.blocks["R"]}, []c09Ev{Hi(w.blocks["L3"])}, append(append([]*c09Vote{}, invalid...), valid...), -1, k%2 == 0)
 			}
 		}
 	}
